@@ -22,6 +22,7 @@ CHECKS = {
     'C04': ('dbmc', 'Same state space as C01; every jobs-row state change is observed at row-update granularity inside the SQL interpreter and judged against the allowed lifecycle relation; group tallies recomputed in every state.', DB, DBT),
     'C06': ('dbmc', 'Same state space as C01; completion flags, n_jobs and tallies of the batch and every visible group recomputed from job states in every state, also through the real readers _get_batch/_get_job_group.', DB, DBT),
     'C39': ('dbmc', 'The complete reachable state graph (BFS to fixpoint) of small batches (chain with an always-run sibling; nested groups) under the real scheduler sweep, the real canceller and orphan sweeps, worker success/failure reports, cancellation of any group and one preemption. Safety on every state and row change; liveness by graph analysis: from every state a state with every committed job terminal is reachable by the system\'s own (fair) transitions, and every bottom SCC of the fair sub-graph consists of such states.', DB + ' Liveness is judged under weak fairness of scheduler/canceller sweeps and worker reports with one instance never preempted.', DBT + '; fair-SCC liveness analysis on the explored graph'),
+    'C40': ('vloop', 'Real WeightedSemaphore on a virtual loop: every order of runnable callbacks for <=3-4 tasks with weights <= capacity, bodies that return / raise / are cancelled while holding, and waiters cancelled before being queued, while queued, and after being granted but before resuming; capacity bound, full return of weight and no capacity consumed by cancelled waiters judged on every execution.', VL, VLT),
     'C41': ('dbmc', 'Same state space as C01 with the second update committed late or never; jobs of uncommitted updates must stay Pending, never get attempts (the real scheduler sweep is a transition), and never influence counters, tallies or completion (C01/C06 recomputations restricted to committed updates).', DB, DBT),
     'C05': ('dbmc', 'Every job DAG on 3 (thorough: 4) jobs x every split of the jobs over update 1 / update 2 x always-run choices; for each program every interleaving (to the depth bound) of the requests of the second update, committed at every possible point, with real scheduler sweeps, success/failure reports and canceller sweeps; readiness gating, cancelled-flag propagation and never-stuck-Pending judged on every row change and state.', DB, DBT),
     'C07': ('dbmc', 'Group trees root>g1>g2 with a sibling; cancellation of any group in any order incl. sub-group before ancestor and repeats, interleaved with real scheduler/canceller sweeps, worker reports and a client submitting groups/jobs/updates beneath the groups; confinement, rejection-without-effect, idempotence, unaffected siblings and error-free scheduling requests judged on every transition.', DB, DBT),
@@ -38,6 +39,7 @@ CHECKS = {
     'C22': ('vloop', 'Real Copier/Transfer over real LocalAsyncFS+RouterAsyncFS in a scratch directory on a virtual loop with every thread-pool call a schedulable step; source-tree grammar x file sizes around part boundaries x destination states x treat_dest_as modes x 1-2 transfers; all schedules with <=1 (thorough: 2 for a subset) deviations incl. task-starvation deviations; reference model of the destination rules.', VL, VLT),
     'C23': ('benum', 'Every (size, start, length, read pattern) up to size 6 (thorough 12) on the four real backends (local files; GCS/S3/Azure clients over fakes of the documented wire semantics) against Python slice semantics.', BE + ' The cloud fakes encode the documented range semantics of each service.', BET),
     'C25': ('benum', 'Every string of the documented size grammar up to the digit bounds x all units, against exact rational arithmetic; every short string over an 18-character alphabet plus one-edit neighbours for client/server acceptance equality.', BE, BET),
+    'C26': ('vloop', 'Real TimeLimitedMaxSizeCache on a virtual loop with an owned monotonic clock: every order of runnable callbacks x load outcomes (succeeds after k yields / raises) x caller cancellations (creator or sharer, at every choice point) x clock advances around the lifetime, for 2-3 concurrent lookups over keys {a,a,b} and capacity 1-2; size, freshness, single-flight and failure-isolation judged on every execution.', VL, VLT),
     'C27': ('vloop', 'Real gear.database transaction helpers over the aiomysql shim with a transactional in-memory backend: every fault plan with <=2 (thorough 3) injected MySQL errors (9 errnos, raised as the class PyMySQL 1.x raises) at every position of 15 operations.', VL + ' The errno->exception-class map is PyMySQL 1.1.x from memory (no copy in the sandbox).', VLT),
     'C28': ('benum', 'Every string of length <=5 (thorough 6) over 16 class-representative characters (ASCII classes, newline, CR, NUL, space, non-ASCII letters/digits) through the validators and their call site, against two hand-written DFAs.', BE, BET),
     'C29': ('benum', 'Every concatenation of <=5 tokens (plus 6-token sequences over a core alphabet; thorough one more) of URL-significant tokens through validate_next_page_url; for each accepted string the Location the handler sends is resolved by a WHATWG-style reference parser.', BE, BET),
